@@ -161,6 +161,8 @@ func (y *vsSys) Letters(s *vsState) []engine.Letter {
 			// a decodable public key of a type no consensus engine key can be made from
 			ls = append(ls, engine.Letter{Name: fmt.Sprintf("RegisterPlan(h+%d,o3,%s,execs=[e2])", dh, vsUnusableKey), Data: vsRegister{dh, "o3", vsUnusableKey, []string{"e2"}}})
 			ls = append(ls, engine.Letter{Name: fmt.Sprintf("RegisterPlan(h+%d,o3,%s,execs=[e2])", dh, vsShortKey), Data: vsRegister{dh, "o3", vsShortKey, []string{"e2"}}})
+			// a well-formed key of a type CometBFT knows but this chain's consensus parameters do not list
+			ls = append(ls, engine.Letter{Name: fmt.Sprintf("RegisterPlan(h+%d,o3,%s,execs=[e2])", dh, vsSecpKey), Data: vsRegister{dh, "o3", vsSecpKey, []string{"e2"}}})
 		}
 	}
 	return ls
@@ -189,7 +191,18 @@ const vsUnusableKey = "multisig(k3)"
 // registered key type, but no consensus key or address can be made from it.
 const vsShortKey = "ed25519(3 bytes)"
 
+// vsSecpKey names a secp256k1 consensus key: convertible into a CometBFT key, but the chain's
+// consensus parameters (ed25519 only, CometBFT's default) do not list its type.
+const vsSecpKey = "secp256k1(k3)"
+
 func pubKeyJSON(w *world.L2, key string) string {
+	if key == vsSecpKey {
+		bz, err := w.Enc.Marshaler.MarshalInterfaceJSON(world.SecpKey("cons-k3").PubKey())
+		if err != nil {
+			panic(err)
+		}
+		return string(bz)
+	}
 	if key == vsShortKey {
 		return `{"@type":"/cosmos.crypto.ed25519.PubKey","key":"AAEC"}`
 	}
@@ -319,7 +332,7 @@ func (y *vsSys) Step(s *vsState, l engine.Letter) (*vsState, string, *engine.Vio
 		// facts for the oracle / known-finding predicates, taken before registration
 		pl := &vsPlan{height: h, op: d.op, key: d.key, execs: d.execs}
 		err := s.w.K.RegisterExecutorChangePlan(1, h, valOf(d.op), "planval", pubKeyJSON(s.w, d.key), "info", execs)
-		if err != nil && (d.key == vsUnusableKey || d.key == vsShortKey) {
+		if err != nil && (d.key == vsUnusableKey || d.key == vsShortKey || d.key == vsSecpKey) {
 			return c, "rejected-unusable-key", nil // refusing a key the engine cannot use is fine
 		}
 		if err != nil {
@@ -371,6 +384,7 @@ func (y *vsSys) nextBlock(s, c *vsState) (*vsState, string, *engine.Violation) {
 		if _, found := s.w.K.GetValidator(ctx, opAddr); !found && len(all) >= int(maxv) {
 			pl.atCap = true
 		}
+		tags = append(tags, "plan-key-type-not-in-consensus-params", fmt.Sprint(pl.key == vsSecpKey))
 		tags = append(tags, "plan-operator-has-record-with-other-key", fmt.Sprint(pl.opHadRecordWithOtherKey),
 			"plan-key-under-other-operator", fmt.Sprint(pl.keyUnderOtherOperator), "plan-at-validator-cap", fmt.Sprint(pl.atCap))
 	}
